@@ -15,9 +15,13 @@ DECIDES = ('a knot vector of wrong length or decreasing order cannot reach stora
            '`clamped` branches with end multiplicity degree + 1 when clamped (LY4); knotvector.normalize is the affine map (k - first)/(last - first) '
            '(AL8); both span searches implement half-open spans: comparison operators on the lower/upper knot are exactly (<, >=) resp. (<=) (HO1); '
            'find_multiplicity compares absolute differences (TOL1); per-direction helper calls in helpers are direction-uniform (AX1); [ORDER TYPES, bounded box, exact per type] both span searches return exactly the half-open interval containing the parameter (the last non-empty one at the domain end) and agree with each other, find_multiplicity returns the number of equal knots, and knotvector.check accepts exactly the non-decreasing vectors of the right length - decided by interpreting the comparison-only skeleton of these functions over every knot order type of the box (OT1-OT3); the single-function routines return 1.0 in the boundary case, the literal 0.0 outside the half-open support, and never an untouched initial cell for derivative orders <= degree inside it, on every fork of their arithmetic zero tests (OT4); [SKEL, bounded] basis_function, basis_function_all and basis_function_ders are index-safe for degrees 1..7, every span and derivative orders 0..degree+2. the list variant find_spans returns for every parameter of a sorted list the span of the single-parameter search (OT1); a delegation wrapper that declares **kwargs forwards them, so the compatibility names in utilities honour clamped=False (KW1). knotvector.normalize returns a new list on every path (PU6). find_multiplicity lets the parameter meet the knots only inside abs(parameter - knot) compared with the tolerance (TOL2).')
-NOT_DECIDED = ('span search beyond the enumerated box and inside the tolerance windows, non-negativity, partition of unity, derivative sums, Cox-de Boor '
-               'equality, order-preservation to rounding: all numerical.')
+NOT_DECIDED = ('span search beyond the enumerated box and inside the tolerance windows; non-negativity (an inequality, not an identity); partition of unity, '
+               'derivative sums and Cox-de Boor equality for knot vectors outside the enumerated ones and to floating-point rounding; order-preservation of normalize to rounding.')
 TECHNIQUE = 'CFG dominance (guards), polynomial normal forms, comparison-operator lattice, symbolic length algebra'
+DECIDES += (' [ABSTRACT INTERPRETATION, exact] BF3: on every non-empty span of five rational knot vectors (degree 1..3, clamped and un-clamped, repeated interior knots, '
+            'un-normalised range) with the parameter a symbolic atom ranging over the span, basis_function / basis_functions / basis_function_all / basis_function_one return '
+            'exactly the Cox-de Boor polynomials (which sum to one) and basis_function_ders / basis_function_ders_one their exact derivatives for every order 0..degree+1 '
+            '(zero above the degree): the routines agree with the recursion and with one another as polynomial identities in the parameter.')
 
 
 def site(fi, node=None):
@@ -25,6 +29,8 @@ def site(fi, node=None):
 
 
 def check(m, run):
+    from .. import skel_drivers as _sd3
+    _sd3.bf3(m, run)      # the basis-function routines equal the Cox-de Boor polynomials and their exact derivatives on every span of the enumerated rational knot vectors
     gd1(m, run)
     kc1(m, run)
     ly4(m, run)
